@@ -186,6 +186,18 @@ def print_assumptions(modname, thms):
     return {"closed": closed, "axioms": sorted(set(axioms)), "n": len(thms)}, out
 
 
+def coqchk(modname, timeout=3000):
+    """thorough tier: re-check the compiled property file and everything it depends on with the independent
+    checker and list the axioms of the whole context (coqchk -o)"""
+    rc, out = sh(["coqchk", "-silent", "-o", "-Q", "theories", "BMC", "-Q", "gen", "BMCGen", "-Q", "props", "BMCProps",
+                  "BMCProps." + modname], cwd=COQ, timeout=timeout)
+    axioms = []
+    m = re.search(r"\* Axioms:\s*(.*?)(?:\n\s*\n|\n\* |\Z)", out, flags=re.S)
+    if m:
+        axioms = [a.strip() for a in m.group(1).split("\n") if a.strip() and a.strip() != "<none>"]
+    return rc == 0, axioms, out
+
+
 def run_lines(binary, lines, timeout=3600, cwd=None):
     """feed lines to a line-protocol binary, return the list of output lines"""
     if not lines:
@@ -415,6 +427,21 @@ def proof_status(ch, modname, build):
             proof["trusted_base"].append(
                 "Print Assumptions: %d/%d theorems closed under the global context; axioms: %s" %
                 (pa["closed"], len(thms), ", ".join(pa["axioms"]) or "none"))
+            if ch.tier == "thorough" and not os.environ.get("VERIF_NO_COQCHK"):
+                try:
+                    okc, ax, outc = coqchk(modname)
+                except subprocess.TimeoutExpired:
+                    okc, ax, outc = None, [], "coqchk timed out"
+                if okc is None:
+                    proof["trusted_base"].append("coqchk: timed out (not counted as a failure; the kernel's own check stands)")
+                elif okc:
+                    proof["trusted_base"].append("coqchk -o on BMCProps.%s and all its dependencies: accepted; axioms in the whole context: %s"
+                                                 % (modname, ", ".join(ax) or "none"))
+                    proof["checker_cmd"] += " ; coqchk -silent -o BMCProps.%s" % modname
+                else:
+                    proof["discharged"] = 0
+                    proof["failed"] = thms
+                    proof["log"] = "coqchk rejected the compiled development:\n" + outc[-3000:]
     else:
         proof["failed"] = thms
         proof["log"] = build.get("make_log", "")[-6000:]
